@@ -556,10 +556,8 @@ func (s *Session) sendError(err error) (e error) {
 	verifhook.Yield("xmpp.sendError.entry")
 	s.out.Lock()
 	defer s.out.Unlock()
-	s.stateMutex.Lock()
-	defer s.stateMutex.Unlock()
 
-	if s.state&OutputStreamClosed == OutputStreamClosed {
+	if s.outputClosed() {
 		return err
 	}
 
@@ -939,8 +937,6 @@ func (s *Session) Close() error {
 	verifhook.Yield("xmpp.Close.entry")
 	s.out.Lock()
 	defer s.out.Unlock()
-	s.stateMutex.Lock()
-	defer s.stateMutex.Unlock()
 
 	return s.closeSession()
 }
@@ -963,12 +959,25 @@ func (s *Session) outputBroken() bool {
 	return ok && (se.depth != 0 || se.failed)
 }
 
+// closeSession marks the output stream as closed and writes the closing stream
+// tag, unless that has already been done.
+//
+// The output lock must be held.
+// The state lock is only taken to test and set the closed bit, not for the
+// write: on a transport where a write waits for the peer to read (net.Pipe, a
+// full TCP window) the closing tag can take arbitrarily long to be accepted,
+// and everything that reads the session (Serve, State) needs the state lock.
+// If the peer is itself waiting for us to read before it reads again, holding
+// the lock across the write would stop both sides for good.
 func (s *Session) closeSession() error {
+	s.stateMutex.Lock()
 	if s.state&OutputStreamClosed == OutputStreamClosed {
+		s.stateMutex.Unlock()
 		return nil
 	}
-
 	s.state |= OutputStreamClosed
+	s.stateMutex.Unlock()
+
 	// We wrote the opening stream instead of encoding it, so do the same with the
 	// closing to ensure that the encoder doesn't think the tokens are mismatched.
 	return intstream.Close(s.Conn(), &s.out.Info)
